@@ -6035,7 +6035,7 @@ class HCI_LE_CS_Set_Default_Settings_Command(
     connection_handle: int = field(metadata=metadata(2))
     role_enable: int = field(metadata=metadata(CS_ROLE_MASK_SPEC))
     cs_sync_antenna_selection: int = field(metadata=metadata(1))
-    max_tx_power: int = field(metadata=metadata(1))
+    max_tx_power: int = field(metadata=metadata(-1))
 
 
 # -----------------------------------------------------------------------------
